@@ -127,6 +127,70 @@ def reopenOptions (pb : Meta) : Except Err Opts :=
   let o := loadMeta pb
   applyOptions o o
 
+/-! ### The TopN cache of a set field across a restart
+
+`fragment.close` → `flushCache` writes the row ids held by the fragment's rank / LRU cache to the
+`.cache` file; `fragment.Open` → `openCache` reads the ids, recounts every row from storage
+(`CountRange`) and `BulkAdd`s it (a row whose count is zero is not kept).  The model is for rows that
+fit the cache (no eviction, no threshold cut), counts exact after `RecalculateCaches` (C12). -/
+
+/-- Bits of a plain set field: single writes as (row, column), and bulk imports of `n` consecutive
+columns of a shard starting at column 1000 of that shard — a region single writes never touch —
+as (row, shard, n), at most one entry per (row, shard). -/
+structure SetData where
+  bits : List (Nat × Nat) := []
+  bulk : List (Nat × Nat × Nat) := []
+deriving Repr
+
+def SetData.setBit (d : SetData) (row col : Nat) : SetData :=
+  if d.bits.contains (row, col) then d else { d with bits := (row, col) :: d.bits }
+
+def SetData.clearBit (d : SetData) (row col : Nat) : SetData :=
+  { d with bits := d.bits.filter (· != (row, col)) }
+
+def SetData.bulkImport (d : SetData) (row shard n : Nat) : SetData :=
+  let old := ((d.bulk.filter (fun b => b.1 == row && b.2.1 == shard)).map (·.2.2)).foldl Nat.max 0
+  { d with bulk := (row, shard, Nat.max old n) :: d.bulk.filter (fun b => !(b.1 == row && b.2.1 == shard)) }
+
+/-- Number of bits of `row` in the fragment of `shard` (what `CountRange` over the row returns). -/
+def SetData.count (d : SetData) (shard row : Nat) : Nat :=
+  (d.bits.filter (fun b => b.1 == row && b.2 / shardWidth == shard)).length +
+  ((d.bulk.filter (fun b => b.1 == row && b.2.1 == shard)).map (·.2.2)).foldl (· + ·) 0
+
+def SetData.rows (d : SetData) : List Nat :=
+  (d.bits.map (·.1) ++ d.bulk.map (·.1)).foldl (fun acc r => insertAsc r acc) []
+
+def SetData.shards (d : SetData) : List Nat :=
+  (d.bits.map (fun b => b.2 / shardWidth) ++ d.bulk.map (·.2.1)).foldl (fun acc r => insertAsc r acc) []
+
+/-- A fragment's cache: row ↦ count, ascending by row. -/
+abbrev Cache := List (Nat × Nat)
+
+/-- What a cache holds for a row with `n` bits: nothing for `n = 0`. -/
+def cacheEntry (count : Nat → Nat) (row : Nat) : Option (Nat × Nat) :=
+  if count row > 0 then some (row, count row) else none
+
+/-- The cache of the fragment of `shard` before the restart. -/
+def fragCache (d : SetData) (shard : Nat) : Cache := d.rows.filterMap (cacheEntry (d.count shard))
+
+/-- `fragment.flushCache`: the ids of the cache go to the `.cache` file. -/
+def flushCache (c : Cache) : List Nat := c.map (·.1)
+
+/-- `fragment.openCache`: every id of the file is recounted from storage and added. -/
+def openCache (ids : List Nat) (count : Nat → Nat) : Cache := ids.filterMap (cacheEntry count)
+
+/-- Close + Open of one fragment's cache. -/
+def reopenCache (d : SetData) (shard : Nat) : Cache :=
+  openCache (flushCache (fragCache d shard)) (d.count shard)
+
+def addPair (acc : List (Nat × Nat)) (p : Nat × Nat) : List (Nat × Nat) :=
+  match acc with
+  | [] => [p]
+  | q :: rest => if q.1 = p.1 then (q.1, q.2 + p.2) :: rest else q :: addPair rest p
+
+/-- `TopN(f)` without a limit: the per-fragment caches merged by row, counts added. -/
+def topN (caches : List Cache) : List (Nat × Nat) := caches.flatten.foldl addPair []
+
 /-- The bsiGroup of an int field. -/
 def Opts.bsi (o : Opts) : BSI := ⟨o.min, o.max, o.base, o.bitDepth⟩
 
